@@ -24,3 +24,8 @@ pub uninterp spec fn str_bytes(s: &str) -> Seq<u8>;
 
 /// valid UTF-8 predicate over byte sequences (uninterpreted)
 pub uninterp spec fn is_utf8(b: Seq<u8>) -> bool;
+
+// ---------------------------------------------------------------------------------------------
+// std combinators vstd has no specification for (so that ordinary edits keep compiling and are then DECIDED)
+pub assume_specification<T, E>[ Result::<T, E>::unwrap_or ](r: Result<T, E>, default: T) -> (o: T)
+    ensures o == (match r { Ok(v) => v, Err(_) => default });
